@@ -4,7 +4,7 @@ from contracts.c_enc import ITEM_REF_MODEL, OBN_RAISES, OBN_BYTES
 # ---------------------------------------------------------------------------------------------- X-NP: opaque library values
 # chunk descriptor: which source rows a chunk holds (absolute index of its first row, number of rows), in which structured dtype
 OPQ_MODELS = {
-    'chunk': {'first_row': 'int', 'n_rows': 'int', 'sdtype': 'opq:sdtype', 'rows_of': 'opq:source',
+    'chunk': {'first_row': 'int', 'n_rows': 'int', 'sdtype': 'opq:sdtype', 'rows_of': 'opq:source', '__getitem__': 'method:opq:chunk',
               '__setitem__': 'method:opq:chunk',                 # store into a chunk made by np.zeros: the writer's own buffer
               '__isinstance__': {}},
     'source': {'__getitem__': 'method:opq:ndarray', 'dtype': 'opq:sdtype', '__isinstance__': {}},
